@@ -21,6 +21,7 @@ type job struct {
 	Pkg     string   `json:"pkg"`  // Go package name
 	Enable  []string `json:"enable"`
 	Disable []string `json:"disable"`
+	Ignore  []string `json:"ignore_not_implemented"`
 }
 
 type result struct {
@@ -52,6 +53,7 @@ func run(j job) (err error) {
 		fo.Disable[f] = struct{}{}
 	}
 	opts.Generator.Features = fo
+	opts.Generator.IgnoreNotImplemented = j.Ignore
 	g, err := gen.NewGenerator(spec, opts)
 	if err != nil {
 		return fmt.Errorf("build IR: %w", err)
